@@ -138,12 +138,13 @@ let run (c : cfg) (t : string list) : string =
       let k = get (nt_kronecker c a n) in
       if is_pos n && is_odd n then begin
         let j = get (nt_jacobi c a n) in
-        if sz n <> "1" && is_prime n then
+        if sz n <> "1" && String.length (sz n) <= 5 && is_prime n then
           let l = get (nt_legendre c a n) in
           String.concat " " (List.map sz [ k; j; l ])
         else sz k ^ " " ^ sz j
       end
       else sz k
+  | [ "leg"; a; p ] -> sz (get (nt_legendre c (z a) (z p)))
   | [ "qr"; a ] -> list_str (get (nt_quadratic_residues (z a)))
   | [ "isqr"; a; p ] -> b (get (nt_is_quad_residue c (z a) (z p)))
   | [ "isnth"; a; n; m ] -> b (get (nt_is_nth_residue (z a) (z n) (z m)))
